@@ -2,6 +2,7 @@
 mod dump;
 mod jt;
 mod lg;
+mod st;
 mod util;
 
 #[global_allocator]
@@ -15,6 +16,7 @@ fn main() {
         "jt-replay" => jt::replay(&args),
         "jt-record" => jt::record(&args),
         "lg-record" => lg::record(&args),
+        "st-record" => st::record(&args),
         _ => { eprintln!("unknown command {cmd}"); 2 }
     };
     std::process::exit(code);
